@@ -86,6 +86,9 @@ func condPolarity(cond ssa.Value, src srcPred, kind string, depth int) (found bo
 			}
 		}
 	}
+	if kind == "notbool" && src(cond) {
+		return true, false
+	}
 	if kind == "bool" {
 		if src(cond) {
 			return true, true
@@ -160,9 +163,9 @@ func (c *Ctx) mustDominate(rule string, f *ssa.Function, resIdx int, checks []re
 			}
 		}
 		if len(offenders) > 0 {
-			c.bad(rule, key, ifs[0].Pos(), fmt.Sprintf("success exit(s) of %s reachable without passing %s: %s", fnName(f), rc.name, strings.Join(offenders, ", ")))
+			c.bad(rule, key, condPos(ifs[0]), fmt.Sprintf("success exit(s) of %s reachable without passing %s: %s", fnName(f), rc.name, strings.Join(offenders, ", ")))
 		} else {
-			c.ok(rule, key, ifs[0].Pos(), fmt.Sprintf("all %d success exits are unreachable once the %d passing edge(s) of %s are cut", len(sps), len(pass), rc.name))
+			c.ok(rule, key, condPos(ifs[0]), fmt.Sprintf("all %d success exits are unreachable once the %d passing edge(s) of %s are cut", len(sps), len(pass), rc.name))
 		}
 	}
 }
@@ -308,4 +311,88 @@ func lenOf(argPred srcPred) srcPred {
 
 func typeIs(v ssa.Value, s string) bool {
 	return types.TypeString(v.Type(), nil) == s
+}
+
+// condPos gives a source position for an If (go/ssa's If has none): the condition's, or the
+// nearest positioned instruction before it in the block.
+func condPos(i *ssa.If) token.Pos {
+	if i.Cond.Pos().IsValid() {
+		return i.Cond.Pos()
+	}
+	b := i.Block()
+	for k := len(b.Instrs) - 1; k >= 0; k-- {
+		if p := b.Instrs[k].Pos(); p.IsValid() {
+			return p
+		}
+	}
+	return i.Block().Parent().Pos()
+}
+
+// callDominatedBy: every call to callee in f is reachable only through a passing edge of rc.
+func (c *Ctx) callDominatedBy(rule string, f *ssa.Function, callee string, rc requiredCheck) {
+	pass, ifs := passingEdges(f, rc)
+	key := fmt.Sprintf("%s call %s requires %s", fnName(f), shortQ(callee), rc.name)
+	var sites []*ssa.Call
+	allInstrs(f, func(_ *ssa.BasicBlock, i ssa.Instruction) {
+		if cl, ok := i.(*ssa.Call); ok && callQName(&cl.Call) == callee {
+			sites = append(sites, cl)
+		}
+	})
+	if len(sites) == 0 {
+		c.bad(rule, key, f.Pos(), fmt.Sprintf("no call to %s found in %s (anchor moved?)", callee, fnName(f)))
+		return
+	}
+	if len(ifs) == 0 {
+		c.bad(rule, key, sites[0].Pos(), fmt.Sprintf("no branch tests %s before %s is called", rc.name, shortQ(callee)))
+		return
+	}
+	cut := map[edge]bool{}
+	for _, e := range pass {
+		cut[e] = true
+	}
+	reach := reachableWithout(f, cut)
+	for _, s := range sites {
+		if reach[s.Block()] {
+			c.bad(rule, key, s.Pos(), fmt.Sprintf("call to %s reachable without passing %s", shortQ(callee), rc.name))
+			return
+		}
+	}
+	c.ok(rule, key, sites[0].Pos(), fmt.Sprintf("%d call site(s) unreachable once the passing edge(s) of %s are cut", len(sites), rc.name))
+}
+
+func shortQ(q string) string { return strings.TrimPrefix(q, modPath+"/") }
+
+// delegatesTo: every exit of f that is not a definite failure returns, unchanged, the result of a
+// call to one of the listed callees.
+func (c *Ctx) delegatesTo(rule string, f *ssa.Function, resIdx int, callees []string) {
+	sps := successPoints(f, resIdx)
+	key := fnName(f) + " delegates success to " + shortQ(strings.Join(callees, "|"))
+	var offenders []string
+	n := 0
+	for _, sp := range sps {
+		v := sp.Ret.Results[resIdx]
+		vals := []ssa.Value{v}
+		if phi, ok := v.(*ssa.Phi); ok {
+			vals = phi.Edges
+		}
+		matched := false
+		for _, x := range vals {
+			if cl := callOf(x); cl != nil {
+				q := callQName(&cl.Call)
+				for _, want := range callees {
+					if q == want {
+						matched = true
+					}
+				}
+			}
+		}
+		if matched {
+			n++
+		} else {
+			offenders = append(offenders, fmt.Sprintf("%s (returns %s)", c.rel(sp.Ret.Pos()), sp.Desc))
+		}
+	}
+	c.check(len(offenders) == 0 && n > 0, rule, key, f.Pos(),
+		fmt.Sprintf("%d non-failure exit(s) all return a verifier's result unchanged", n),
+		fmt.Sprintf("%s has a success exit that does not come from a verifier: %s", fnName(f), strings.Join(offenders, ", ")))
 }
